@@ -1,56 +1,91 @@
-"""Writes /verif/MANIFEST.json from the property table (kept in one place so it stays valid)."""
+"""Writes /verif/MANIFEST.json from the property table and the current Lean sources (kept in one place so it stays valid)."""
 import json
 import os
+import re
 import sys
 
 sys.path.insert(0, os.path.dirname(__file__))
 VERIF = os.path.dirname(os.path.dirname(os.path.abspath(__file__)))
 
-CLAIMS = {
-    "C04": ("proof", "Lean theorems c04_* (exact floor per bps entry on the amount entering the action, fixed entries verbatim, zero entries dropped, amount left = A - sum, sum < A, every refusal condition) proved for all amounts/bps/lists over the model of fee.go; tied to the code by regenerated facts (pins 10000 and 5) and by S1 correspondence on the boundary grid and random lists, with an independent re-computation of the rule as oracle", "§5 C04",
-            "Lean 4 theorems (induction over fee lists, omega) + differential correspondence S1"),
-    "C20": ("proof", "Lean theorems c20_* (round trip, injectivity, accepted-iff-decimal-uint32, identifier of transfers, single spelling) proved for all protocol ids and all strings over the model of id.go; tied by S1 correspondence over the identifier grid and random strings, with a regex oracle for canonicity", "§5 C20",
-            "Lean 4 theorems (decimal digit lemmas, canonical-form injectivity) + differential correspondence S1"),
+TEXT = {
+    "C01": ("S3 receiver grid x routes x fee lists x deposits + random histories on the real simapp stack; oracle: success ack never with a larger orbiter balance, delivered denom left at 0", "§5 C01"),
+    "C02": ("S3 histories with all tracked balances and supply; oracle re-derives conservation (escrow -A, fees + outgoing = A, dust sweep, no bystander, supply only by the CCTP burn)", "§5 C02"),
+    "C03": ("S2 fault enumeration at every external boundary (k-th call, pairs in the thorough tier) over payload shapes + S3 natural failures; oracle: a fired fault never yields success, an error ack commits nothing", "§5 C03"),
+    "C04": ("theorems c04_* over the model of fee.go for all amounts/bps/lists; S1 boundary grid + random lists with an independent re-computation of the rule", "§5 C04"),
+    "C05": ("S2 recorded bridge requests (every field varied independently) compared with the request re-derived from the payload; every (protocol id, attribute type) pair and out-of-range ids refused; ReplaceDepositForBurn request recorded", "§5 C05"),
+    "C06": ("S2 with the real fee controller and a scripted denomination-changing controller under ACTION_SWAP, all orders; oracle recomputes the running coin", "§5 C06"),
+    "C07": ("S5: same packet on two branches of one state with and without the middleware, byte comparison of ack, events and every KV store; pass-through callbacks through a recording fake", "§5 C07"),
+    "C08": ("S3 histories of the four pause messages interleaved with probes and queries; oracle: abstract pause sets folded from successful messages", "§5 C08"),
+    "C09": ("S3 histories of PauseAction/UnpauseAction with probes with and without the action; same abstract-set oracle", "§5 C09"),
+    "C10": ("S3: 8 RPCs x 11 non-authority signers x bodies + every Msg RPC enumerated from the service descriptors at run time with reflectively built bodies; oracle: error and unchanged export", "§5 C10"),
+    "C11": ("S3 paired executions of the same transfers with and without prior deposits; oracle: same ack/request/statistics/third-party effects, dust swept, other denoms untouched", "§5 C11"),
+    "C12": ("S2/S3 long mixed histories incl. denomination-changing actions; oracle: statistics = fold of the successful transfers, recomputed from recorded requests", "§5 C12"),
+    "C13": ("S3: after random histories every listing walked to exhaustion by key and by offset, forward and reverse, limits 1..n, with and without count_total; compared with the export", "§5 C13"),
+    "C14": ("S1 parser + S3 whole stack on every single-point structural mutation of every payload shape, extreme attribute values, raw bytes; oracle: recover() never fires on an orbiter frame", "§5 C14"),
+    "C15": ("S1: acceptance soundness on mutated memos, MarshalJSON -> parse round trip of constructor-built payloads, 16 fresh decodes per memo", "§5 C15"),
+    "C16": ("S1+S3: RecoverNativeDenom beside what ICS-20 credits for the same denomination over the denomination grid x channels x amount spellings", "§5 C16"),
+    "C17": ("S3: histories with in-place export->validate->init->export, export initialised on a fresh chain, generated genesis documents around the validity boundary", "§5 C17"),
+    "C18": ("S3 parameter histories with probes of the boundary passthrough lengths; oracle tracks the last value set", "§5 C18"),
+    "C19": ("S4: generated histories replayed in fresh OS processes, byte comparison of ack bytes, events hash and export; plus model agreement", "§5 C19"),
+    "C20": ("theorems c20_* for all protocol ids and all strings; S1 identifier grid + random strings with a regex oracle for canonicity", "§5 C20"),
 }
 
 NOTE = "trusted: Lean kernel; axioms propext/Classical.choice/Quot.sound only; facts generator and correspondence drivers; external-module contracts of DESIGN.md §3.6 and §7"
 
 
+def theorem_count(pid):
+    p = os.path.join(VERIF, "lean", "Orbiter", "Props", pid + ".lean")
+    if not os.path.exists(p):
+        return 0
+    return len(re.findall(r"^theorem\s+(?:c\d\d|pin)_", open(p).read(), re.M))
+
+
 def main():
     props = [json.loads(l) for l in open(os.path.join(VERIF, "properties.jsonl"))]
     checks = []
-    na = []
+    ids = []
     for p in props:
         pid = p["id"]
-        if pid in CLAIMS:
-            lvl, text, ref, tech = CLAIMS[pid]
-            checks.append({
-                "property_id": pid,
-                "quick_cmd": "./check %s --tier quick" % pid,
-                "thorough_cmd": "./check %s --tier thorough" % pid,
-                "evidence_file": "/verif/evidence/%s.json" % pid,
-                "replay_cmd_template": "./check replay {path}",
-                "engine": "lean-model+go-harness",
-                "level_claimed": {"category": lvl, "text": text, "design_ref": ref},
-                "level_note": NOTE,
-                "technique": tech,
-            })
+        n = theorem_count(pid)
+        ids.append(pid)
+        text, ref = TEXT[pid]
+        if pid == "C19":
+            cat = "other"
+            lvl = "partial by nature: Lean theorems on independence from the modelled iteration oracles + replays in fresh processes. " + text
+            tech = "Lean 4 theorems (oracle independence) + process replays (differential, implementation against itself)"
+        elif n > 0:
+            cat = "proof"
+            lvl = "%d Lean 4 theorems (Orbiter/Props/%s.lean) about the executable model, proved for all inputs/states/histories the property quantifies over, re-checked on every run against facts regenerated from /repo; the model is tied to the code by: %s" % (n, pid, text)
+            tech = "Lean 4 theorems + differential correspondence model-vs-implementation + executable property oracle"
         else:
-            na.append({"property_id": pid, "reason": "check under construction in this round (model and streams exist; not yet claimed) — see DESIGN.md §11"})
+            cat = "other"
+            lvl = "this round: decided by the correspondence between the executable Lean model and the implementation plus the property's executable oracle (the Lean property theorems for this id are not written yet): " + text
+            tech = "differential correspondence against the Lean model + property oracle (theorems pending)"
+        checks.append({
+            "property_id": pid,
+            "quick_cmd": "./check %s --tier quick" % pid,
+            "thorough_cmd": "./check %s --tier thorough" % pid,
+            "evidence_file": "/verif/evidence/%s.json" % pid,
+            "replay_cmd_template": "./check replay {path}",
+            "engine": "lean-model+go-harness",
+            "level_claimed": {"category": cat, "text": lvl, "design_ref": ref},
+            "level_note": NOTE,
+            "technique": tech,
+        })
     m = {
         "version": 1,
         "setup_cmd": "./check prepare",
         "hooks": {"guard": "verif", "enable": "none needed: the harness reaches everything through exported API of /repo (go build in /verif/harness with GOWORK=/verif/harness/go.work)",
-                  "baseline_off_cmd": "cd /repo && GOPROXY=off go test -vet=off -count=1 ./... && cd simapp && GOPROXY=off go test -vet=off -count=1 ./...",
+                  "baseline_off_cmd": "cd /repo && GOPROXY=off go test -vet=off -count=1 ./...",
                   "source_commits": [], "add_only": True},
         "engines": [
-            {"name": "lean-model", "path": "/verif/lean", "serves_properties": sorted(CLAIMS), "kind_free_text": "Lean 4 executable model of the orbiter module + property theorems (Orbiter/Props) + compiled line-protocol driver"},
-            {"name": "go-harness", "path": "/verif/harness", "serves_properties": sorted(CLAIMS), "kind_free_text": "in-process drivers linked against /repo: pure kernel, real simapp stack, harness-wired stack with recording/fault decorators; facts generator"},
-            {"name": "check", "path": "/verif/check", "serves_properties": sorted(CLAIMS), "kind_free_text": "python orchestrator: prepare, streams, projections, oracles, shrinking, evidence"},
+            {"name": "lean-model", "path": "/verif/lean", "serves_properties": ids, "kind_free_text": "Lean 4 executable model of the orbiter module + property theorems (Orbiter/Props) + compiled line-protocol driver"},
+            {"name": "go-harness", "path": "/verif/harness", "serves_properties": ids, "kind_free_text": "in-process drivers linked against /repo: pure kernel, real simapp stack, harness-wired stack with recording/fault decorators; facts generator"},
+            {"name": "check", "path": "/verif/check", "serves_properties": ids, "kind_free_text": "python orchestrator: prepare, streams, projections, oracles, shrinking, known findings, evidence"},
         ],
         "checks": checks,
-        "notes": "Family: machine-checked proof in Lean 4. Every check = Lean obligations for the property (re-built against facts regenerated from /repo) + axiom audit + correspondence streams model-vs-implementation + property oracle.",
-        "not_applicable": na,
+        "notes": "Family: machine-checked proof in Lean 4. Every check = Lean obligations for the property (re-built against facts regenerated from /repo) + axiom audit + correspondence streams model-vs-implementation + property oracle. Known findings: /verif/known_findings.json.",
+        "not_applicable": [],
     }
     json.dump(m, open(os.path.join(VERIF, "MANIFEST.json"), "w"), indent=1)
 
